@@ -81,6 +81,7 @@ class Scope:
     fi: FuncInfo
     cls: ClassInfo | None
     locals: dict[str, object] = field(default_factory=dict)
+    slot_alias: dict[str, str] = field(default_factory=dict)  # local bound once to state_lists[KEY] -> KEY
 
 
 class Spaces:
@@ -183,8 +184,14 @@ class Spaces:
             t = self.formal.get((f.qual, p))
             if t is not None:
                 sc.locals[p] = t
-        # two passes so that locals defined later are visible to earlier uses (flow-insensitive)
-        for _ in range(2):
+        # `d = state_lists[KEY]` (only binding of d): d.<property> is typed like state_lists[KEY].<property>
+        for n in A.walk_no_nested(f.node):
+            if isinstance(n, ast.Assign) and len(n.targets) == 1 and isinstance(n.targets[0], ast.Name) and isinstance(n.value, ast.Subscript):
+                nm, key = A.subscript_key(self.repo, f.module, n.value)
+                if nm is not None and isinstance(key, str) and self._is_state_lists(nm, sc) and self._bound_once(f, n.targets[0].id):
+                    sc.slot_alias[n.targets[0].id] = key
+        # three passes so that locals defined later are visible to earlier uses (flow-insensitive; chains of two locals)
+        for _ in range(3):
             self._bind_locals(sc)
         self._check_sites(sc)
         # returns
@@ -220,6 +227,11 @@ class Spaces:
                             if isinstance(st, ast.Expr) and isinstance(st.value, ast.Call) and isinstance(st.value.func, ast.Attribute) and st.value.func.attr == "append" and isinstance(st.value.func.value, ast.Name):
                                 nm = st.value.func.value.id
                                 sc.locals[nm] = self._join(sc.locals.get(nm), ("list", sp, None))
+
+    @staticmethod
+    def _bound_once(f: FuncInfo, name: str) -> bool:
+        n_bind = sum(1 for x in ast.walk(f.node) if isinstance(x, ast.Name) and x.id == name and isinstance(x.ctx, (ast.Store, ast.Del)))
+        return n_bind == 1 and name not in f.params
 
     def _bind_iter(self, target: ast.AST, it: ast.AST, sc: Scope) -> None:
         # for idx, x in enumerate(X): idx : idx[space(X)]
@@ -284,8 +296,11 @@ class Spaces:
         if isinstance(e, ast.Attribute):
             if isinstance(e.value, ast.Name) and e.value.id == "self" and sc.cls is not None:
                 return self._attr_type(sc.cls, e.attr)
-            # property on an object held in a state_lists slot
-            nm, key = A.subscript_key(repo, m, e.value)
+            # property on an object held in a state_lists slot (or on the only-once bound local alias of the slot)
+            if isinstance(e.value, ast.Name) and e.value.id in sc.slot_alias:
+                nm, key = "state_lists", sc.slot_alias[e.value.id]
+            else:
+                nm, key = A.subscript_key(repo, m, e.value)
             if nm is not None and isinstance(key, str) and self._is_state_lists(nm, sc):
                 t = None
                 for cq in sorted(self.slot_classes.get(key, ())):
